@@ -69,7 +69,7 @@ def shrink(repo, cfg, ops):
 
 
 def report(ctx, cfg, ops, s, key=None, do_shrink=True):
-    if do_shrink and key is None:
+    if do_shrink and key is None and len(ctx.violations) < 4:
         try:
             small = shrink(ctx.repo, cfg, ops)
             t = qa.run_program(ctx.repo, cfg, small)
@@ -149,11 +149,8 @@ def run(ctx):
         cov_len[f"{b}-{b + 9}"] = cov_len.get(f"{b}-{b + 9}", 0) + 1
         fl = [o for o in s.obs if o[0] == "flush"]
         stats["flushes"] += len(fl)
+        stats["relocations"] += s.relocations
         nt = any(o[2] for o in fl)
-        for o in fl:
-            for e in o[2]:
-                if e[0] == "use" and len(e[1]) >= 2 and 0 in e[1]:
-                    pass
         ctx.note_case((cfg.key(), json.dumps(ops)), nt)
 
     # 1. corpus (witnesses of repaired defects and earlier violations): oracle + correspondence
@@ -178,7 +175,7 @@ def run(ctx):
 
     # 3. generated programs, every configuration
     cfgs = qa.all_configs()
-    n_rand = 760 if quick else 9500
+    n_rand = 1700 if quick else 9500
     for i in range(n_rand):
         cfg = cfgs[i % len(cfgs)]
         ops, s = qa.gen_program(repo, cfg, rng, 12 if i % 3 == 0 else 36, want_refusal=(i % 6 == 0))
@@ -186,6 +183,8 @@ def run(ctx):
         runs.append((cfg, ops, s))
         if s.problems:
             report(ctx, cfg, ops, s)
+            if len(ctx.violations) > 60:
+                break
     # 4. exhaustive small programs
     depth = 3 if quick else 4
     ex_cfgs = [qa.Cfg(2, False, False), qa.Cfg(3, True, False), qa.Cfg(3, True, True)]
@@ -203,6 +202,8 @@ def run(ctx):
                 runs.append((cfg, ops, s))
                 if s.problems:
                     report(ctx, cfg, ops, s)
+            if len(ctx.violations) > 60:
+                break
     ctx.log(f"ran {stats['programs']} programs ({stats['flushes']} flushes, {stats['refusals']} SDK refusals), "
             f"oracle failures {len(ctx.violations)}")
 
@@ -222,6 +223,15 @@ def run(ctx):
         search(ctx, mism)
     if not quick:
         coqchk(ctx)
+    if ctx.broken and not any(v["key"] is None for v in ctx.violations):
+        # vlib.finish() adds the no-failing-input-found violation only when NO violation at all was
+        # recorded; the replayed finding witnesses are recorded (keyed) violations, so add it here
+        first = None
+        if mism:
+            c0, o0, s0 = mism[0]
+            first = dict(cfg=c0.to_json(), ops=o0, implementation=[list(x) for x in s0.obs])
+        ctx.violation("obligation no longer checks: " + "; ".join(ctx.broken)[:1500],
+                      dict(broken=ctx.broken, first_mismatch=first), key=None, found_input=False)
     ctx.finish()
 
 
@@ -231,7 +241,7 @@ def search(ctx, mism):
     repo = ctx.repo
     for cfg, ops, _ in mism[:40]:
         for cut in range(1, len(ops) + 1):
-            cand = [list(o) for o in ops[:cut]] + [["flush"], ["new"], ["flush"]]
+            cand = [list(o) for o in ops[:cut]] + [["flush"]]   # a prefix stays within the budget
             try:
                 s, key = run_keyed(repo, cfg, cand)
             except Exception:
@@ -240,9 +250,9 @@ def search(ctx, mism):
                 report(ctx, cfg, cand, s)
                 return
     cfgs = qa.all_configs()
-    for i in range(4000):
+    for i in range(1500):
         cfg = cfgs[i % len(cfgs)]
-        ops, s = qa.gen_program(repo, cfg, ctx.rng, 60)
+        ops, s = qa.gen_program(repo, cfg, ctx.rng, 40)
         if s.problems:
             report(ctx, cfg, ops, s)
             return
